@@ -255,7 +255,10 @@ func NewTypecast(scope *types.Scope, imports util.ImportNames, t types.Type, inn
 		} else if scope.Lookup(typ.Obj().Name()) != nil {
 			// If the type is defined within the current package.
 			expr = typ.Obj().Name()
-		} else if pkgName, ok := imports.LookupName(typ.Obj().Pkg().Path()); ok {
+		} else if pkgName, ok := imports.LookupName(typ.Obj().Pkg().Path()); ok && pkgName == "" {
+			// The type comes from a dot-imported package.
+			expr = typ.Obj().Name()
+		} else if ok {
 			expr = fmt.Sprintf("%v.%v", pkgName, typ.Obj().Name())
 		} else {
 			expr = fmt.Sprintf("%v.%v", typ.Obj().Pkg().Name(), typ.Obj().Name())
